@@ -139,7 +139,7 @@ Definition step_ok (x : stmt) (w : wst) : bool :=
   match x with
   | SBegin => is_none (pend s)
   | SCommit => negb (is_none (pend s)) && is_none (w_await w)
-  | SRollback => false
+  | SRollback => negb (is_none (pend s))      (* `with connection` after an exception (duplicate viewer data) *)
   | SCreate n => negb (has n (tabs v))
   | SIndex => true
   | SInsertMeta => has NMeta (tabs v) && (meta v =? 0)%nat
@@ -160,6 +160,7 @@ Definition next_await (x : stmt) (w : wst) : option (ctable * Z) :=
   match x with
   | SInsertCase t _ => Some (t, next_id (rows (view (w_st w)) t))
   | SInsertGlobal _ _ => None
+  | SRollback => None
   | _ => w_await w
   end.
 
